@@ -83,6 +83,11 @@ Clause ==
                                         \/ C.stmts[i].se > LineEnd(C.stmts[i].ln) + 1 THEN "extract-outside-line"
     ELSE IF \E i \in 1..Len(C.stmts) : C.stmts[i].ln > Len(C.lines) \/ KindsOf(C.stmts[i].cls) \cap {C.lines[C.stmts[i].ln].kinds[k] : k \in 1..Len(C.lines[C.stmts[i].ln].kinds)} = {}
          THEN "statement-kind"
+    \* 6. code is laid out in source order: of two statements with disjoint ranges the one whose code
+    \*    comes first is the one written first
+    \*    (a statement may own a second range, e.g. the jump that ends the arm before an ELSEIF: its first range counts)
+    ELSE IF LET first == {i \in ne : \A k \in ne : C.stmts[k].ss = C.stmts[i].ss => C.stmts[i].s <= C.stmts[k].s} IN
+            \E i, j \in first : C.stmts[i].ss < C.stmts[j].ss /\ C.stmts[i].s > C.stmts[j].s THEN "order-unlike-source"
     ELSE "ok"
 
 Init == cid \in 1..Len(Cases) /\ verdict = "run"
